@@ -89,7 +89,7 @@ contract(
     requires=_mbi_req, ensures=_mbi_post,
     raises={'TypeError': lambda c: c.old.cls(ref(c['source'])) != c.old.cls(ref(c['destination']))},
     mod=lambda c: [ref(c['destination'])], writes=INTERNALS, result='none', allocates=False,
-    props=('C15',),
+    props=('C15', 'C20'),
     note='the five internals of destination become those of source (aliasing), nothing else '
          'changes; exact type mismatch -> TypeError and nothing changes',
 )
